@@ -355,6 +355,10 @@ let run_spec line =
       | 'Q' -> IQuote (inls ())
       | '2' -> IDash2 | '3' -> IDash3 | 'e' -> IEllipsis
       | 'P' -> let b = next () in IApos (hexs body, hexs b)
+      | 'R' -> let tx = inls () in let lab = next () in let u = next () in let ti = next () in IRefLink (tx, hexs lab, hexs u, opt ti)
+      | 'I' -> let lab = next () in let u = next () in let ti = next () in IRefImage (hexs body, hexs lab, hexs u, opt ti)
+      | 'F' -> IFoot (nat_of_int (int_of_string body))
+      | 's' -> ISoft
       | _ -> failwith ("bad inline " ^ t) in
     let lines () = let acc = ref [] in while peek () <> ";" do acc := hexs (next ()) :: !acc done; ignore (next ()); List.rev !acc in
     let group f = if next () <> "(" then failwith "( expected"; let acc = ref [] in while peek () <> ")" do acc := f () :: !acc done; ignore (next ()); List.rev !acc in
@@ -373,14 +377,19 @@ let run_spec line =
       | "table" -> let al = next () in
         let aligns = List.init (String.length al) (fun i -> match al.[i] with 'l' -> ALeft | 'c' -> ACenter | 'r' -> ARight | _ -> ANone) in
         let header = group cell in let rows = group (fun () -> group cell) in BTable (aligns, header, rows)
+      | "figure" -> let a = hexs (next ()) in let u = hexs (next ()) in let ti = opt (next ()) in BFigure (a, u, ti)
+      | "deflist" -> BDefList (group (fun () -> let t = inls () in let ds = group inls in (t, ds)))
+      | "html" -> BHtml (lines ())
       | t -> failwith ("bad block " ^ t) in
-    let doc = let acc = ref [] in (while !toks <> [] do acc := blk () :: !acc done); List.rev !acc in
+    let bl = let acc = ref [] in (while !toks <> [] && peek () <> "notes" do acc := blk () :: !acc done); List.rev !acc in
+    let nts = if peek () = "notes" then (ignore (next ()); let acc = ref [] in (while !toks <> [] do acc := inls () :: !acc done); List.rev !acc) else [] in
+    let doc = { blocks = bl; notes = nts } in
     (match hd with
      | [sm; cp; bu; em; ld; cl; ru; tb; cr] ->
        let o = { smart = (sm = "1"); compat = (cp = "1") } in
        let sp = { bullet = n_of_int (int_of_string bu); emch = n_of_int (int_of_string em); lead = nat_of_int (int_of_string ld);
                   closing = nat_of_int (int_of_string cl); rule = nat_of_int (int_of_string ru); tabs = (tb = "1"); crlf = (cr = "1") } in
-       hex_of_bytes (spell sp doc) ^ " " ^ hex_of_bytes (render o sp doc)
+       hex_of_bytes (spell_doc sp doc) ^ " " ^ hex_of_bytes (render_doc o sp doc)
      | _ -> "?")
 
 (* ---------- C03 block theorem: comma separated line kinds -> "<dfa state or -> <block rules of the model's parse or ->" *)
